@@ -118,7 +118,7 @@ impl WmoParser {
         debug!("WMO version: {:?}", version);
 
         // Parse header
-        let header = self.parse_header(&chunks, reader, version)?;
+        let (header, bounding_box) = self.parse_header(&chunks, reader, version)?;
         debug!("WMO header: {:?}", header);
 
         // Parse textures
@@ -171,9 +171,6 @@ impl WmoParser {
         if let Some(ref cvp) = convex_volume_planes {
             debug!("Found {} convex volume planes", cvp.planes.len());
         }
-
-        // Create global bounding box from all groups
-        let bounding_box = self.calculate_global_bounding_box(&groups);
 
         Ok(WmoRoot {
             version,
@@ -253,7 +250,7 @@ impl WmoParser {
         chunks: &HashMap<ChunkId, Chunk>,
         reader: &mut R,
         _version: WmoVersion,
-    ) -> Result<WmoHeader> {
+    ) -> Result<(WmoHeader, BoundingBox)> {
         let header_chunk = chunks
             .get(&chunks::MOHD)
             .ok_or_else(|| WmoError::MissingRequiredChunk("MOHD".to_string()))?;
@@ -270,8 +267,22 @@ impl WmoParser {
         let n_doodad_sets = reader.read_u32_le()?;
         let color_bytes = reader.read_u32_le()?;
 
-        // +0x20: wmoID (not kept), +0x24: bounding box (calculated from the groups instead)
-        reader.seek(SeekFrom::Current(4 + 24))?;
+        // +0x20: wmoID (not kept)
+        reader.seek(SeekFrom::Current(4))?;
+
+        // +0x24: bounding box
+        let bounding_box = BoundingBox {
+            min: Vec3 {
+                x: reader.read_f32_le()?,
+                y: reader.read_f32_le()?,
+                z: reader.read_f32_le()?,
+            },
+            max: Vec3 {
+                x: reader.read_f32_le()?,
+                y: reader.read_f32_le()?,
+                z: reader.read_f32_le()?,
+            },
+        };
 
         // +0x3C: flags (u16), followed by numLod (u16)
         let flags = WmoFlags::from_bits_truncate(reader.read_u16_le()? as u32);
@@ -284,17 +295,20 @@ impl WmoParser {
             a: ((color_bytes >> 24) & 0xFF) as u8,
         };
 
-        Ok(WmoHeader {
-            n_materials,
-            n_groups,
-            n_portals,
-            n_lights,
-            n_doodad_names,
-            n_doodad_defs,
-            n_doodad_sets,
-            flags,
-            ambient_color,
-        })
+        Ok((
+            WmoHeader {
+                n_materials,
+                n_groups,
+                n_portals,
+                n_lights,
+                n_doodad_names,
+                n_doodad_defs,
+                n_doodad_sets,
+                flags,
+                ambient_color,
+            },
+            bounding_box,
+        ))
     }
 
     /// Parse texture filenames
@@ -1030,53 +1044,6 @@ impl WmoParser {
             s.to_string()
         } else {
             String::new()
-        }
-    }
-
-    /// Calculate a global bounding box from all groups
-    fn calculate_global_bounding_box(&self, groups: &[WmoGroupInfo]) -> BoundingBox {
-        if groups.is_empty() {
-            return BoundingBox {
-                min: Vec3 {
-                    x: 0.0,
-                    y: 0.0,
-                    z: 0.0,
-                },
-                max: Vec3 {
-                    x: 0.0,
-                    y: 0.0,
-                    z: 0.0,
-                },
-            };
-        }
-
-        let mut min_x = f32::MAX;
-        let mut min_y = f32::MAX;
-        let mut min_z = f32::MAX;
-        let mut max_x = f32::MIN;
-        let mut max_y = f32::MIN;
-        let mut max_z = f32::MIN;
-
-        for group in groups {
-            min_x = min_x.min(group.bounding_box.min.x);
-            min_y = min_y.min(group.bounding_box.min.y);
-            min_z = min_z.min(group.bounding_box.min.z);
-            max_x = max_x.max(group.bounding_box.max.x);
-            max_y = max_y.max(group.bounding_box.max.y);
-            max_z = max_z.max(group.bounding_box.max.z);
-        }
-
-        BoundingBox {
-            min: Vec3 {
-                x: min_x,
-                y: min_y,
-                z: min_z,
-            },
-            max: Vec3 {
-                x: max_x,
-                y: max_y,
-                z: max_z,
-            },
         }
     }
 }
